@@ -496,6 +496,27 @@ def fstDirect (ns : List Nat) (snps : List (List (List Bool))) : Rat :=
   fstRatio (sumMap snps fun cols => fstAAt ns (cols.map countTrue))
            (sumMap snps fun cols => fstDAt ns (cols.map countTrue))
 
+/-! ### the statistics of a spectrum PROJECTED from `n` to `m` chromosomes, by direct counting on the full columns -/
+
+/-- the probability that `m` of the `n` chromosomes of a column with `i` derived alleles are not all alike -/
+def segProb (m n i : Nat) : Rat := 1 - projWeight m n i 0 - projWeight m n i m
+
+/-- expected number of columns that still segregate among `m` of their `n` chromosomes (= `S` of the projected spectrum) -/
+def sProj (m n : Nat) (cols : List (List Bool)) : Rat := sumMap cols fun c => segProb m n (countTrue c)
+
+def wattersonProj (m n : Nat) (cols : List (List Bool)) : Rat := wattersonOuter (sProj m n cols) (harm harmTerm m)
+
+/-- θ_L of the projected spectrum: the mean derived count m·i/n minus the "all `m` derived" class, over m − 1 -/
+def thetaLProj (m n : Nat) (cols : List (List Bool)) : Rat :=
+  thetaLOuter (sumMap cols fun c => (m : Rat) * (countTrue c : Rat) / (n : Rat) - (m : Rat) * projWeight m n (countTrue c) m) (m : Rat)
+
+def tajVarProj (m n : Nat) (cols : List (List Bool)) : Rat :=
+  tajVar (m : Rat) (harm tajA1Term m) (harm tajA2Term m) (sProj m n cols)
+
+/-- Tajima's D of the projected spectrum: π̂ of the full data (invariant), θ_W and the variance from the projected S -/
+def tajimaProj (sqrtC : Rat) (m n : Nat) (cols : List (List Bool)) : Rat :=
+  tajD (piDirect n cols) (wattersonProj m n cols) sqrtC
+
 /-! ### what `S` does to the spectrum it is called on (the statements are generated: `sBody`)
 
     `S` saves the mask, masks the two corner entries in place, sums the visible entries and puts the saved mask back.
